@@ -507,9 +507,14 @@ class _Parser(object):
     def _handle_project_operator(self, operator, values):
         if operator in _GROUPING_OPERATOR_MAP:
             if isinstance(values, (list, tuple)):
-                values = self.parse_many(values)
+                # A missing operand counts like a null one: it is not accumulated.
+                values = [self._parse_or_nothing(value) for value in values]
+                values = [None if value is NOTHING else value for value in values]
             else:
-                values = self.parse(values)
+                values = self._parse_or_nothing(values)
+                if values is NOTHING:
+                    # A single operand that is missing: there is nothing to accumulate.
+                    values = []
                 if not isinstance(values, (list, tuple)) and operator not in ('$first', '$last'):
                     # A single operand that is not an array is the only value to accumulate.
                     values = [values]
